@@ -738,6 +738,30 @@ def run(chk):
     import rules.C13 as c13
     c13.run(core.Only(chk, {"C13.ijk"}))
 
+    # ---- C10.fileswitch: stepping from one data file of a run chain to the next
+    r_fw = chk.rule("C10.fileswitch", "ESmry.cpp: every loop over the ministep list that notices a change of data file (`dataFileIndex != std::get<1>(ministep)`) takes BOTH indices from the ministep tuple inside that branch - the specification index std::get<0> (which run's SMSPEC gives the vector positions and the formatted flag) and the data-file index std::get<1> - the same in the selective load, the full load and the ministep reader.  With the specification index left at the oldest base run, a continued run whose vectors sit at other positions comes back with the values of other vectors, silently", floor=3)
+    ex10 = chk.facts(["opm/io/eclipse/ESmry.cpp"])
+    for f in ex10.fns:
+        if not f.get("body") or not f["file"].endswith("ESmry.cpp"):
+            continue
+        for n in walk(f["body"]):
+            if n.get("k") != "If" or not isinstance(n.get("cond"), dict):
+                continue
+            c_ = strip(n["cond"])
+            if not (c_.get("k") == "Bin" and c_.get("op") in ("!=", "==") and "dataFileIndex" in show(c_) and "std::get" in show(c_)):
+                continue
+            branch = n["then"] if c_["op"] == "!=" else n.get("else")
+            asg = {}
+            for x in walk(branch or {}):
+                if x.get("k") == "Bin" and x.get("asg") and x.get("op") == "=" and strip(x["c"][0]).get("k") == "Ref":
+                    rhs_ = strip(x["c"][1])
+                    if rhs_.get("k") == "Call" and (rhs_.get("fn") or "").endswith("std::get") and rhs_.get("targs"):
+                        asg[strip(x["c"][0])["n"]] = str(rhs_["targs"][0])
+            key = "%s@%d" % (f["n"], n["l"])
+            chk.instance(r_fw, key, sample=dict(function=f["q"], taken=asg))
+            if asg.get("specInd") != "0" or asg.get("dataFileIndex") != "1":
+                chk.violation(r_fw, key, "%s: on a change of data file the branch takes %s from the ministep; it must take specInd = std::get<0> and dataFileIndex = std::get<1> (the vector positions and the formatted flag belong to the run of the new file)" % (f["q"], asg or "nothing", ), f["file"], n["l"])
+
     # ---- C10.startvec: the START record of an ESMRY file, written and read
     r_sv = chk.rule("C10.startvec", "ESMRY START record = (day, month, year, hour, minute, second, millisecond), seven entries: the direct writer (ExtSmryOutput) fills all seven from the time stamp in this order, the converter (ESmry::make_esmry_file) turns the SMSPEC microsecond entry into second and appended millisecond, and the reader (ExtESmry make_date) takes hour, minute and second from entries 3, 4, 5 as they stand exactly when the record has seven entries - the same count the writers produce", floor=3)
     sx = chk.facts(["opm/io/eclipse/ExtSmryOutput.cpp", "opm/io/eclipse/ExtESmry.cpp", "opm/io/eclipse/ESmry.cpp"])
